@@ -199,6 +199,9 @@ pub fn cases_simple(rng: &mut Rng, count: usize, tier: &str, which: &str) -> Vec
             let f = gen::gen_facts(rng, o);
             tags.push("builder");
             (World::Builder(build::script_from_facts(rng, &f, 1)), f)
+        } else if which == "C19" && rng.chance(1, 3) {
+            // user-chosen category / modifier groups (categories_mut / modifier_mut)
+            world::gen_world_custom(rng, o, &mut tags, 1)
         } else {
             world::gen_world_sub(rng, o, &mut tags)
         };
